@@ -105,7 +105,7 @@ func (p *policy) reinstateGrants(grants map[string]Grant) error {
 					uID, uZone)
 			} else {
 				ug.SetMemoryZone(uZone)
-				if opt.PinMemory {
+				if opt.PinMemory && ug.MemoryType() != memoryPreserve {
 					ug.GetContainer().SetCpusetMems(uZone.MemsetString())
 				}
 				log.Info("updated grant %s to memory zone %s", uID, uZone)
